@@ -9,6 +9,7 @@ WORKER = os.path.join(common.VERIF, "harness", "load_worker.py")
 COMPRESSORS = [None, ("zlib", 3), ("gzip", 3), ("bz2", 3), ("lzma", 3), ("xz", 3)]
 OBJECTS = ["{'a': list(range(50)), 'b': 'x' * 100, 'c': (1, 2.5, None, b'bytes')}", "[('k%d' % i, i * 1.5) for i in range(300)]", "'short'", "b'\\x00' * 9000"]
 # text that is not ASCII: a cut may fall inside a multi-byte character (read outside a pickle frame: protocol 3, or >= 64 KiB)
+BRACES = {"k": "{}", "{0}": [1, "{name}"]}
 OBJECTS_P = [("['cach\\u00e9 \\u2713 \\U0001F600', '\\u2713' * 40]", 3), ("'\\u2713\\u00e9' * 30000", None)]
 
 
@@ -117,23 +118,28 @@ def body(c):
     for compress in (False, True, ["xz", 3], ["gzip", 3], ["bz2", 3], ["lzma", 3]):
         for val in ((3, 7) if c.quick else (3, 7, 11, 13)) if compress in (False, True) else ((3,) if c.quick else (3, 7)):
             mb = os.path.join(base, "mem_%s_%d" % (compress if not isinstance(compress, list) else compress[0], val)); tdir = os.path.join(mb, "template"); os.makedirs(tdir)
-            spec = dict(moddir=os.path.join(mb, "mod"), ver=1, log=os.path.join(mb, "log"), opts={"compress": compress}, ops=[["call", val]])
+            # every second value: an argument whose repr is full of braces (the message about the unreadable entry quotes the call), and
+            # warnings turned into errors in the process that finds the damaged entry
+            call = ["call", val] + ([BRACES] if val == 7 else [])
+            expect = ["v1", val, BRACES if val == 7 else 0]
+            spec = dict(moddir=os.path.join(mb, "mod"), ver=1, log=os.path.join(mb, "log"), opts={"compress": compress}, ops=[call])
             fsctl.run_plain(tdir, spec)
+            spec = dict(spec, opts={"compress": compress, "warn_error": val == 7})
             outs = [os.path.join(dp, "output.pkl") for dp, dn, fn in os.walk(tdir) if "output.pkl" in fn]
             data = open(outs[0], "rb").read(); rel = os.path.relpath(outs[0], tdir)
             damages = [("cut", k) for k in range(0, len(data))] + [("extra", b"\0"), ("extra", b"junkjunk"), ("extra", data)]
 
-            def one(dm, mb=mb, tdir=tdir, rel=rel, data=data, spec=spec, val=val):
+            def one(dm, mb=mb, tdir=tdir, rel=rel, data=data, spec=spec, val=val, expect=expect):
                 d = os.path.join(mb, "c_%s_%s" % (dm[0], dm[1] if dm[0] == "cut" else len(dm[1]))); shutil.copytree(tdir, d)
                 with open(os.path.join(d, rel), "wb") as h: h.write(data[:dm[1]] if dm[0] == "cut" else data + dm[1])
                 rc, lines, err = fsctl.run_plain(d, spec); shutil.rmtree(d, ignore_errors=True)
-                return dm, rc, lines, err
+                return dm, rc, lines, err, expect
             with ThreadPoolExecutor(max_workers=14) as ex:
-                for dm, rc, lines, err in ex.map(one, damages):
+                for dm, rc, lines, err, expect in ex.map(one, damages):
                     c.evaluations += 1
-                    key = {"clause": "memory", "compress": compress, "damage": dm[0], "at": dm[1] if dm[0] == "cut" else len(dm[1]), "value": val}
+                    key = {"clause": "memory", "compress": compress, "damage": dm[0], "at": dm[1] if dm[0] == "cut" else len(dm[1]), "value": val, "warnings_as_errors": val == 7}
                     c.nontrivial.add(json.dumps(key))
-                    if rc != 0 or len(lines) != 1 or "exc" in lines[0] or lines[0].get("value") != ["v1", val, 0]:
+                    if rc != 0 or len(lines) != 1 or "exc" in lines[0] or lines[0].get("value") != expect:
                         c.violation(key, "C14: cached call on a damaged entry (output.pkl %s at %s, compress=%s): %s" % (dm[0], key["at"], compress, lines or err[-200:]), {})
                     else: mstats["ok"] += 1
     c.extra["memory_recompute_ok"] = mstats["ok"]
